@@ -53,7 +53,9 @@ class CacheModel:
                 calls_g = any(_self_call(n) == g for n in walk_no_nested(p.node))
                 reads_f = any(_self_attr(n, cn) == f and isinstance(n.ctx, ast.Load) for n in walk_no_nested(p.node) if isinstance(n, ast.Attribute))
                 rets = [n for n in walk_no_nested(p.node) if isinstance(n, ast.Return)]
-                boolish = rets and all(isinstance(r.value, ast.Constant) and isinstance(r.value.value, bool) for r in rets)
+                def _boolish(v):
+                    return (isinstance(v, ast.Constant) and isinstance(v.value, bool)) or isinstance(v, (ast.Compare, ast.BoolOp)) or (isinstance(v, ast.UnaryOp) and isinstance(v.op, ast.Not)) or (isinstance(v, ast.Call) and src(v.func) in ("any", "all", "bool"))
+                boolish = rets and (all(_boolish(r.value) for r in rets) or (p.node.returns is not None and src(p.node.returns) == "bool"))
                 if calls_g and reads_f and boolish and p.name != g:
                     found = (f, ci.methods[g], p)
         if not found:
@@ -644,6 +646,22 @@ class _Obs:
         if isinstance(e, ast.Constant) and isinstance(e.value, str):
             return [e.value]
         if isinstance(e, ast.Name):
+            def literal(it):
+                """a literal list/tuple of strings, possibly through a single-assignment local"""
+                if isinstance(it, ast.Name):
+                    ds = [a.value for a in walk_no_nested(fi.node) if isinstance(a, ast.Assign) and len(a.targets) == 1 and isinstance(a.targets[0], ast.Name) and a.targets[0].id == it.id]
+                    if len(ds) == 1:
+                        it = ds[0]
+                if isinstance(it, (ast.List, ast.Tuple, ast.Set)) and all(isinstance(x, ast.Constant) and isinstance(x.value, str) for x in it.elts):
+                    return [x.value for x in it.elts]
+                return None
+            for n in ast.walk(fi.node):
+                if isinstance(n, ast.For) and isinstance(n.target, ast.Name) and n.target.id == e.id and literal(n.iter) is not None:
+                    return literal(n.iter)
+                if isinstance(n, (ast.ListComp, ast.GeneratorExp, ast.SetComp, ast.DictComp)):
+                    for g in n.generators:
+                        if isinstance(g.target, ast.Name) and g.target.id == e.id and literal(g.iter) is not None:
+                            return literal(g.iter)
             for n in walk_no_nested(fi.node):
                 if isinstance(n, ast.For) and isinstance(n.target, ast.Name) and n.target.id == e.id and isinstance(n.iter, (ast.List, ast.Tuple)):
                     if all(isinstance(x, ast.Constant) and isinstance(x.value, str) for x in n.iter.elts):
@@ -657,7 +675,11 @@ class _Obs:
     def use(self, slot, node, par, fi):
         p = par.get(node)
         if isinstance(p, ast.Attribute) and p.value is node:
-            self.member(slot, p.attr, p)
+            pp = par.get(p)
+            if p.attr == "heralds" and isinstance(pp, ast.Subscript) and pp.value is p and isinstance(pp.slice, ast.Constant) and isinstance(pp.slice.value, str):
+                self.member(slot, f"heralds[{pp.slice.value}]", p)  # one side of the herald table only
+            else:
+                self.member(slot, p.attr, p)
             return
         if isinstance(node.ctx, ast.Store):
             return
@@ -683,6 +705,8 @@ class _Obs:
         ts = self.slot_type(slot)
         if ts & {"Circuit", "Unitary"}:
             obs = CIRCUIT_MODEL.get(attr)
+            if attr.startswith("heralds["):
+                obs = {attr}
             if obs is None:
                 self.keys.setdefault((slot, "?" + attr), node)
             else:
@@ -724,6 +748,8 @@ def f2_snapshot(ctx, res: Result, model: CacheModel) -> None:
     res.count("refresh_observables", len(need.keys))
     for key, node in sorted(need.keys.items(), key=lambda kv: kv[0]):
         covered = key in have.keys or ((key[0],) in have.keys and len(key) == 1)
+        if not covered and len(key) == 2 and key[1].startswith("heralds[") and (key[0], "heralds") in have.keys:
+            covered = True  # the whole herald table is recorded
         # a whole-slot entry of a value-like slot covers its members
         if not covered and (key[0],) in have.keys and not (need.slot_type(key[0]) & {"Circuit", "Unitary", "Source", "Backend", "Detector"}):
             covered = True
